@@ -38,6 +38,10 @@ CLAIMED = {
             "order independence, path agreement and operand preservation", "§4 C11"),
     "C12": ("bounded symbolic execution of all conversion variants and droplet properties in dims 1-3; z3 decides "
             "round trips, variant agreement, derivative sandwich for all r>=0, V>=0, h>0", "§4 C12"),
+    "C19": ("bounded symbolic execution of locate_droplets (class selection, from_droplet, refine_droplet promotion, "
+            "Emulsion dtype bookkeeping) over 7 grid families x modes 0-3 x width {unset, 0, symbolic} x refine; "
+            "binary-image locator replaced by symbolic candidates, least_squares by a contract stub; z3/rewriter "
+            "decide class table, amplitude count, carried width/radius/position, common layout", "§4 C19"),
 }
 
 NOT_YET = {}
